@@ -151,8 +151,12 @@ def check_intervals(vec, rep, seen, st):
     sums = sorted(by_sum)
     total = sum(vec)
     budget = StepBudget(STEP_LIMIT)
-    for i_start in range(total + 2):
-        for i_end in range(i_start, total + 2):
+    if total <= 60:
+        points = list(range(total + 2))
+    else:       # large scores: every achievable sum and its neighbours, 0 and total+1
+        points = sorted({0, total + 1} | {x for s_ in sums for x in (s_ - 1, s_, s_ + 1) if 0 <= x <= total + 1})
+    for a_, i_start in enumerate(points):
+        for i_end in points[a_:]:
             inside = [s for s in sums if i_start <= s < i_end]
             exp = sorted((c, inside[0]) for c in by_sum[inside[0]]) if inside else []
             st["intervals"] += 1
@@ -207,13 +211,17 @@ def violate(rep, seen, m, case, size, snippet):
                              {"engine": "inputs", "case": case, "size": size, "detail": m.detail, "snippet": snippet()}), cnt]
 
 
+BIGVALS = [5, 10 ** 12, 10 ** 12 + 1]
+
+
 def worker(task):
     smax, n, head = task
     rep = Report(PROP, collect_only=True)
     seen = {}
     st = {"vectors": 0, "calls": 0, "combinations": 0, "intervals": 0, "nontrivial": 0, "tie_vectors": 0}
-    for tail in itertools.product(range(smax + 1), repeat=n - len(head)):
-        vec = head + tail
+    values = BIGVALS if smax == "big" else range(smax + 1)
+    for tail in itertools.product(values, repeat=n - len(head)):
+        vec = tuple(head) + tail
         st["vectors"] += 1
         ties_any = False
         for mode in ("list", "tuple", "range"):
@@ -257,6 +265,8 @@ def run(report, tier):
             for head in itertools.product(range(smax + 1), repeat=min(2, n)):
                 tasks.append((smax, n, head))
         grids.append((smax, nmax))
+    for n in (1, 2, 3):
+        tasks.append(("big", n, ()))        # large integer scores: sums that differ by 1 in 10**12
     res = pmap(worker, tasks)
     best = {}
     for d, _ in res:
